@@ -51,15 +51,27 @@ Lemma sess_step_local : forall (st : list (obj A)) (op : sop A) (i : nat) (o : o
   nth_error (fst (sess_step st op)) i =
   Some (match op with
         | On j a => if Nat.eqb j i then fst (obj_step o a) else o
+        | NewHead j n => if Nat.eqb j i then fst (obj_step o (AFrame OpMaterialize)) else o
         | _ => o
         end).
 Proof.
-  intros st op i o H. destruct op as [f t|k names rows|j a]; cbn [sess_step fst].
+  assert (Hlt : forall (st : list (obj A)) (i : nat) (o : obj A), nth_error st i = Some o -> i < length st).
+  { intros st0 i0 o0 H0. apply nth_error_Some. rewrite H0. discriminate. }
+  intros st op i o H. destruct op as [f t|k names rows|j a|j|j n]; cbn [sess_step fst].
   - rewrite nth_error_app1; [exact H|]. apply nth_error_Some. rewrite H. discriminate.
   - rewrite nth_error_app1; [exact H|]. apply nth_error_Some. rewrite H. discriminate.
   - destruct (Nat.eqb j i) eqn:E.
     + apply Nat.eqb_eq in E. subst j. rewrite H. cbn [fst]. apply (set_nth_same _ st i _ o H).
     + apply Nat.eqb_neq in E. destruct (nth_error st j) as [oj|] eqn:Hj; cbn [fst]; [|exact H].
+      rewrite (set_nth_other _ st j i _ E). exact H.
+  - destruct (nth_error st j) as [oj|]; cbn [fst]; [|exact H].
+    rewrite nth_error_app1; [exact H|exact (Hlt st i o H)].
+  - destruct (Nat.eqb j i) eqn:E.
+    + apply Nat.eqb_eq in E. subst j. rewrite H. destruct o as [f t|names s]; cbn [fst obj_step]; [exact H|].
+      rewrite nth_error_app1; [|rewrite set_nth_length; exact (Hlt st i _ H)].
+      cbn [step fst]. apply (set_nth_same _ st i _ _ H).
+    + apply Nat.eqb_neq in E. destruct (nth_error st j) as [[f t|names s]|] eqn:Hj; cbn [fst]; try exact H.
+      rewrite nth_error_app1; [|rewrite set_nth_length; exact (Hlt st i o H)].
       rewrite (set_nth_other _ st j i _ E). exact H.
 Qed.
 
@@ -71,8 +83,9 @@ Proof.
   induction ops as [|op r IH]; intros st i o H; cbn [sess_state actions_on].
   - exact H.
   - pose proof (sess_step_local st op i o H) as Hs.
-    rewrite (IH _ i _ Hs). destruct op as [f t|k names rows|j a]; try reflexivity.
-    destruct (Nat.eqb j i); reflexivity.
+    rewrite (IH _ i _ Hs). destruct op as [f t|k names rows|j a|j|j n]; try reflexivity.
+    + destruct (Nat.eqb j i); reflexivity.
+    + destruct (Nat.eqb j i); reflexivity.
 Qed.
 
 Lemma sess_run_app : forall (pre ops : list (sop A)) (st : list (obj A)),
@@ -110,6 +123,22 @@ Proof.
   intros st f t k names rows. cbn [sess_step fst]. split.
   - rewrite nth_error_app2; [|apply Nat.le_refl]. rewrite Nat.sub_diag. reflexivity.
   - rewrite nth_error_app2; [|apply Nat.le_refl]. rewrite Nat.sub_diag. reflexivity.
+Qed.
+
+(* a deep copy starts as the value its source has at that moment; head(n) starts as a list-backed frame
+   of the first n rows of its source *)
+Lemma sess_new_derived : forall (st : list (obj A)) (i n : nat),
+  (forall o, nth_error st i = Some o ->
+     nth_error (fst (sess_step st (NewCopy i))) (length st) = Some o) /\
+  (forall names s, nth_error st i = Some (OFrame names s) ->
+     nth_error (fst (sess_step st (NewHead i n))) (length st) = Some (OFrame names (SEager (firstn n (contents s))))).
+Proof.
+  intros st i n. split.
+  - intros o H. cbn [sess_step]. rewrite H. cbn [fst].
+    rewrite nth_error_app2; [|apply Nat.le_refl]. rewrite Nat.sub_diag. reflexivity.
+  - intros names s H. cbn [sess_step]. rewrite H. cbn [fst].
+    rewrite nth_error_app2; [|rewrite set_nth_length; apply Nat.le_refl].
+    rewrite set_nth_length. rewrite Nat.sub_diag. reflexivity.
 Qed.
 
 (* an object created in the middle of a session *)
